@@ -15,8 +15,10 @@ import time
 import traceback
 
 ROOT = os.path.dirname(os.path.dirname(os.path.abspath(__file__)))
-EVID = os.path.join(ROOT, "evidence")
-REPLAYS = os.path.join(ROOT, "replays")
+# development runs against a patched copy (VERIF_REPO != /repo) must not overwrite the committed evidence
+_DEV = os.environ.get("VERIF_REPO", "/repo") != "/repo"
+EVID = os.environ.get("VERIF_EVIDENCE_DIR") or (os.path.join("/tmp", "verif_dev_evidence") if _DEV else os.path.join(ROOT, "evidence"))
+REPLAYS = os.path.join("/tmp", "verif_dev_replays") if _DEV else os.path.join(ROOT, "replays")
 KNOWN = os.path.join(ROOT, "known_findings.json")
 
 
